@@ -43,7 +43,14 @@ def setup(args):
     errs = []
     flavours = set()
     jobs = []
+    try:
+        ok = set(l.strip() for l in open(os.path.join(os.path.dirname(os.path.abspath(__file__)), "claimed.txt"))
+                 if l.strip() and not l.startswith("#"))
+    except OSError:
+        ok = set(PROPS)
     for p, spec in sorted(PROPS.items()):
+        if p not in ok and not args:
+            continue
         for r in spec["runs"]:
             if "quick" in r.get("tiers", ("quick", "thorough")):
                 if r.get("need_lib", True):
